@@ -211,8 +211,8 @@ def i_CWD(i, fmap):
 def i_CDQ(i, fmap):
     fmap[rip] = fmap[rip] + i.length
     x = fmap(eax).signextend(64)
+    # only edx is written (and zero-extended into rdx), rax is left untouched
     fmap[rdx] = x[32:64].zeroextend(64)
-    fmap[rax] = x[0:32].zeroextend(64)
 
 
 def i_CQO(i, fmap):
@@ -893,6 +893,9 @@ def i_XCHG(i, fmap):
     op2 = i.operands[1]
     tmp1 = fmap(op1)
     tmp2 = fmap(op2)
+    if op2._is_mem:
+        # the memory operand is written first: its address may depend on the other operand
+        op1, op2, tmp1, tmp2 = op2, op1, tmp2, tmp1
     op1, tmp2 = _r32_zx64(op1, tmp2)
     fmap[op1] = tmp2
     op2, tmp1 = _r32_zx64(op2, tmp1)
